@@ -13,4 +13,19 @@ def shr32 (a : UInt32) (n : UInt64) : UInt32 := if n ≥ 32 then 0 else a >>> n.
 /-- `bits.RotateLeft64(x, k)` for a constant `0 < k < 64` -/
 def rotl64 (x : UInt64) (k : Nat) : UInt64 := (x <<< k.toUInt64) ||| (x >>> (64 - k).toUInt64)
 
+/-! ### float64/float32 values as IEEE-754 bit patterns (floats.go never computes with them: it compares,
+    negates and takes them apart) -/
+
+def f64signBit : UInt64 := 0x8000000000000000
+def f64mag (a : UInt64) : UInt64 := a &&& 0x7FFFFFFFFFFFFFFF
+def f64isNaN (a : UInt64) : Bool := f64mag a > 0x7FF0000000000000
+/-- unary minus -/
+def f64neg (a : UInt64) : UInt64 := a ^^^ f64signBit
+/-- the order of the real numbers (with ±Inf, and -0 = +0) on non-NaN patterns -/
+def f64key (a : UInt64) : Int := if a &&& f64signBit != 0 then - ((f64mag a).toNat : Int) else (f64mag a).toNat
+/-- `a <= b`: false when either side is a NaN -/
+def f64le (a b : UInt64) : Bool := !f64isNaN a && !f64isNaN b && decide (f64key a ≤ f64key b)
+def f64lt (a b : UInt64) : Bool := !f64isNaN a && !f64isNaN b && decide (f64key a < f64key b)
+def f32neg (a : UInt32) : UInt32 := a ^^^ 0x80000000
+
 end Rapid.Go
